@@ -178,6 +178,12 @@ def gen_lines(r):
             if r.random() < 0.2:
                 body = b"\r\n" + body
             lines.append(body + r.choice([b"\r\n", b"\n", b"", b"\r\n\n"]))
+            if r.random() < 0.12:
+                # the same line again (a capture with a retransmitted frame, two equal results), maybe behind a blank
+                # line or with the other line ending
+                if r.random() < 0.3:
+                    lines.append(r.choice([b"\r\n", b"\n"]))
+                lines.append(body + r.choice([b"\r\n", b"\n"]))
     return lines
 
 
@@ -270,8 +276,15 @@ def run(ctx):
                 paths.append(pth)
             peers = []
 
+            fault_on = r.randrange(len(paths)) if len(paths) > 1 and r.random() < 0.4 else None
+
             async def fake_open(address, port, *a, **kw):
-                p_ = ScriptedPeer([b"\x06"] * 50)
+                # (one of the servers may drop its connection in the middle: that transfer is lost, the others are not)
+                if fault_on is not None and len(peers) == fault_on:
+                    p_ = ScriptedPeer([b"\x06"] * r.choice([1, 2]) + [RESET])
+                    p_.faulty = True
+                else:
+                    p_ = ScriptedPeer([b"\x06"] * 50)
                 peers.append(p_)
                 return p_, p_
             orig_open, orig_argv = asyncio.open_connection, sys.argv
@@ -301,8 +314,24 @@ def run(ctx):
                 return [b"\x05"] + [l.strip(b"\r\n") for l in ls if l.strip(b"\r\n")] + [b"\x04"]
             exp = sorted(units_of(p_) for p_ in paths)
             got = sorted([e[1] for e in p_.log if e[0] == "W"] for p_ in peers)
-            case = {"files": [[hexb(l) for l in ls] for ls in files]}
+            case = {"files": [[hexb(l) for l in ls] for ls in files], "connection_reset_on_transfer": fault_on}
             mf.case(case, nontrivial=len(files) > 1)
+            if fault_on is not None:
+                # every transfer but the one whose connection broke is complete
+                healthy = sorted([e[1] for e in p_.log if e[0] == "W"] for p_ in peers if not getattr(p_, "faulty", False))
+                broken = [[e[1] for e in p_.log if e[0] == "W"] for p_ in peers if getattr(p_, "faulty", False)]
+                rest = list(exp)
+                ok_ = True
+                for t_ in healthy:
+                    if t_ in rest:
+                        rest.remove(t_)
+                    else:
+                        ok_ = False
+                if not ok_ or len(rest) != 1 or (broken and broken[0] != rest[0][:len(broken[0])]):
+                    mf.fail(dict(case, error=err, sent=[[hexb(u) for u in t] for t in got][:3]),
+                            "with the connection of one of %d transfers reset, the other transfers are not sent completely" % len(files),
+                            "main/fault-isolation")
+                continue
             if err or got != exp:
                 mf.fail(dict(case, error=err, sent=[[hexb(u) for u in t] for t in got][:3]),
                         "simulator -i with %d files does not send every file as its own ENQ / lines / EOT transfer" % len(files),
